@@ -80,6 +80,8 @@ def make_constraint(spec, inplace=False):
             for i in range(len(x)): x[i] = round(x[i] / h) * h
         elif kind == 'ints':
             for i in spec[1]: x[i] = float(round(x[i]))
+        elif kind == 'intall':        # every entry rounded; the pure form hands back INTEGERS (python ints or an integer array)
+            for i in range(len(x)): x[i] = float(round(x[i]))
         elif kind == 'tie':           # x[j] = x[i]
             x[spec[2]] = x[spec[1]]
         elif kind == 'affine':        # x[j] = a*x[i] + b
@@ -99,6 +101,9 @@ def make_constraint(spec, inplace=False):
         def c(x):
             y = [float(v) for v in x]
             y = apply(y)
+            if kind == 'intall':
+                y = [int(v) for v in y]
+                return np.array(y, dtype=int) if spec[1] == 'npint' else y
             return np.array(y) if isinstance(x, np.ndarray) else y
     c.spec = spec
     return c
@@ -122,7 +127,8 @@ def gen_constraint(rng, dim, box=None):
     if r < 0.5:
         i = rng.randrange(dim); a, b = sorted([inside(i), inside(i)]); return ['clamp', i, a, b]
     if r < 0.62 and not box: return ['grid', rng.choice([0.5, 0.25, 1.0])]
-    if r < 0.74 and not box: return ['ints', sorted(rng.sample(range(dim), rng.randint(1, dim)))]
+    if r < 0.66 and not box: return ['ints', sorted(rng.sample(range(dim), rng.randint(1, dim)))]
+    if r < 0.74 and not box: return ['intall', rng.choice(['pyint', 'npint'])]
     if r < 0.86 and dim > 1:
         i, j = rng.sample(range(dim), 2)
         if box and not (box['lo'][j] <= box['lo'][i] and box['hi'][i] <= box['hi'][j]): return ['pin', i, inside(i)]
@@ -309,6 +315,8 @@ def gen_solver_cfg(rng, solvers=('nm', 'powell', 'de', 'de2'), dims=(1, 5)):
     k = rng.choice(list(solvers))
     dim = rng.randint(*dims)
     cfg = {'solver': k, 'dim': dim, 'x0': [round(rng.uniform(-3, 3), 2) for _ in range(dim)]}
+    if rng.random() < 0.12:       # a start far from the origin: relative steps (5% simplex edges, ...) are then larger than any rounding a constraint performs
+        m = rng.choice([10.0, 40.0]); cfg['x0'] = [round(v * m, 1) for v in cfg['x0']]
     if rng.random() < 0.15: cfg['x0'][rng.randrange(dim)] = 0.0
     if k in ('de', 'de2'):
         cfg['npop'] = rng.choice([4, 5, 8, max(4, 2 * dim + 1)])
